@@ -663,6 +663,13 @@ pub fn coordinate(prop: &dyn Prop, tier: Tier, seed: u64, jobs: usize, want_dige
     crashed.sort();
     let wall = t0.elapsed().as_secs_f64();
     if write_evidence {
+        if total.samples.is_empty() {
+            // every worker died before reporting (a crash violation): describe the first generated case all the same
+            let first = std::env::var("MLASIM_RUN_OFFSET").ok().and_then(|v| v.parse::<u64>().ok()).unwrap_or(0);
+            let mut s = prop.make(seed, first, tier).summary();
+            s["run"] = json!(first);
+            total.samples.push(s);
+        }
         let distinct = sigs.len() as u64;
         let ev = json!({
             "property_id": prop.id(),
